@@ -12,7 +12,7 @@ import datetime as dt
 import json
 import random
 
-from .common import Ctx, MachineryError
+from .common import Ctx, MachineryError, scribble
 from . import joseops as J
 from . import refimpl as R
 from . import keys as K
@@ -162,7 +162,7 @@ def _one_impl(sc, algpair, idx: int, seed: int):
         # the returned objects belong to the caller: editing them must not change what a later decode returns
         if not fails:
             want_h, want_c = json.dumps(t.header, sort_keys=True), json.dumps(t.claims, sort_keys=True, default=str)
-            t.header.pop("typ", None); t.header["alg"] = "none"; t.header["injected"] = True
+            t.header.pop("typ", None); t.header["alg"] = "none"; t.header["injected"] = True; scribble(t.header); scribble(t.claims)
             if isinstance(t.claims, dict):
                 t.claims["injected"] = True
             try:
